@@ -2,7 +2,7 @@
 import asyncio
 import struct
 
-from engine.hlib import check, done
+from engine.hlib import check, done, reraise
 from engine.vloop import Peer, VLoop, VTime, make_streams
 from gallia.transports import TargetURI
 from gallia.transports import doip as D
@@ -127,8 +127,7 @@ def run(script, times, split_idx, split_off, gap, ack_timeout_ms, read_timeout_u
 
     task = loop.run(main(), max_steps=60000)
     check(task.done(), "client blocks forever")
-    if task.exception() is not None:
-        raise task.exception()
+    reraise(task)
     # ---- reference ----
     comp = [times[i] + (gap if i == split_idx else 0) for i in range(n)]
     ack_to = ACK_TO
@@ -240,8 +239,7 @@ def activation(src, atype, ver, code, at):
     task = loop.run(main(), max_steps=40000)
     asyncio.open_connection = saved
     check(task.done(), "connect blocks forever")
-    if task.exception() is not None:
-        raise task.exception()
+    reraise(task)
     kind, conn, when = task.result()
     w = box["tr"].all_written()
     exp = struct.pack("!BBHL", ver, 255 - ver, 0x0005, 7) + struct.pack("!HBI", src, atype, 0)
